@@ -5,6 +5,7 @@ import (
 	"fmt"
 
 	"github.com/mutagen-io/mutagen/pkg/selection"
+	"github.com/mutagen-io/mutagen/pkg/synchronization"
 	"github.com/mutagen-io/mutagen/pkg/url"
 )
 
@@ -42,6 +43,16 @@ func (s *CreationSpecification) ensureValid() error {
 	// Verify that the beta-specific configuration is valid.
 	if err := s.ConfigurationBeta.EnsureValid(true); err != nil {
 		return fmt.Errorf("invalid beta-specific configuration: %w", err)
+	}
+
+	// Verify that the configurations that the endpoints will receive (the
+	// session configuration merged with each endpoint-specific configuration)
+	// are valid, because some constraints can only be evaluated on the merged
+	// values.
+	if err := synchronization.MergeConfigurations(s.Configuration, s.ConfigurationAlpha).EnsureValid(false); err != nil {
+		return fmt.Errorf("invalid merged alpha configuration: %w", err)
+	} else if err = synchronization.MergeConfigurations(s.Configuration, s.ConfigurationBeta).EnsureValid(false); err != nil {
+		return fmt.Errorf("invalid merged beta configuration: %w", err)
 	}
 
 	// Verify that the name is valid.
